@@ -127,7 +127,8 @@ def check(ctx):
                 # generators over as seed sequences
                 conv = find("bitgens = [_bitgen._seed_seq for _bitgen in bitgens]", wf)
                 guard = any(isinstance(n_, ast.If) and unparse(n_.test) == "isinstance(bitgen, np.random.SeedSequence)" for n_ in walk_no_nested(f))
-                ok = bool(conv) and guard and has_fact(inline_facts(wf, conv[0][0]), "isinstance(rng, Generator)", True) is not None
+                only_gen = bool(conv) and {unparse(e) for e, pol in cfg_of(wf).facts(conv[0][0])} == {"isinstance(rng, Generator)"}
+                ok = bool(conv) and guard and has_fact(inline_facts(wf, conv[0][0]), "isinstance(rng, Generator)", True) is not None and only_gen
                 ctx.ob("EFFECT.per-chunk.fresh-generator", c, f"{fn}: blocks receive SeedSequences (converted in _wrap_func) and build their bit generator from them", ok, "" if ok else "bit generators are stored in the graph and drawn from directly")
             else:
                 ctx.ob("EFFECT.per-chunk.fresh-generator", c, f"{fn}: _rng_from_bitgen is given a bit generator constructed in the block function", not stale, "" if not stale else f"draws from the graph-resident object `{unparse(arg)}`: its state advances, so recomputing the same seeded array (or switching scheduler afterwards) gives other values")
